@@ -36,8 +36,9 @@ semantics), so `[oa.reverse(), drain(oa)]` is a body whose single violation is t
 mutation.
 
 Bounds (each part enumerated completely, see space()):
-  quick     every body of <= 2 ops over the nine core values (all cross-value pairs), plus
-            every body of <= 2 ops over each derived list na / fa / pa;
+  quick     every body of <= 2 ops over the nine core values without list mutators (all
+            cross-value pairs), plus every body of <= 2 ops (mutators included) over each
+            single list value oa / ba / ca / la / na / fa / pa;
   thorough  every body of <= 2 ops over all twelve values; every 3-op body over each single
             value; every 3-op body over the core values without list mutators; every 4-op
             body over {o, b, q, t, s}.
@@ -701,9 +702,9 @@ def _bypass(name):
 def space(tier):
     """Parts of the enumerated space: (label, kinds, maxlen, minlen, with mutators).  Each
     part is enumerated completely; a body occurring in two parts is replayed once."""
-    derived = [(f"{k}<=2", [k], 2, 0, True) for k in ("na", "fa", "pa")]
     if tier == "quick":
-        return [("core<=2", CORE, 2, 0, True)] + derived
+        return ([("core-nomut<=2", CORE, 2, 0, False)] +
+                [(f"{k}<=2", [k], 2, 0, True) for k in KINDS if k in LISTLEN])
     single3 = [(f"{k}=3", [k], 3, 3, True) for k in KINDS]
     return ([("all<=2", KINDS, 2, 0, True)] + single3 +
             [("core-nomut=3", CORE, 3, 3, False), ("tiny=4", TINY, 4, 4, True)])
